@@ -131,6 +131,10 @@ struct Session {
 };
 extern Session *g_sess;
 
+// While set, a virtual-time budget overrun ends the case as "held" (tag start-did-not-finish) instead of failing it: used where
+// the statement does not promise termination (start against an interface that lies about its node table).
+void hang_is_inconclusive(bool on);
+
 // common epilogue checks (lock table empty, thread ledger balanced, anomalies)
 std::string lifecycle_anomalies(bool after_stop);
 
